@@ -50,6 +50,14 @@ CHECKS = {
         "by TLC, also after random refinements. Polygon.tla enumerates rectilinear lattice polygons for the constructor. Geometry (arc length, piece lengths, continuity, closure, "
         "eval == containing piece) is measured against exact segment geometry and judged by the generic TLC judge with a class-coverage postcondition.",
    note="Exploration: space grids are break points + mid points only; geometry at random parameters per piece; tolerance 1e-12. Trusted: TLC, NumPy norms, sin for circle chords."),
+ "C17": dict(level="model_checking", design="§5 C17", engine="assembly",
+   technique="TLC model checking of Assembly.tla (paths, pool interleavings, crash points, file faults) + TLC-simulated behaviours executed on real files and real pools, judged by TraceAssembly",
+   text="Assembly.tla is explored exhaustively (matrix variant with the inline path, vector variant without; up to 3 calls over 2-3 inputs, use_mp, worker sets, every "
+        "interleaving of pool workers, crash inside the store with every damage class, truncation to every byte class and deletion between calls): Transparent, NoSharing, "
+        "InlineNoFile, BigStepAgrees, CallsTerminate (fair). Behaviours simulated from the same module and fixed fault histories run against the real bilform_matrix / "
+        "linform_vector with a real cache directory, really damaged files and real pools (cpu_count 1..16); each returned array is compared bitwise with entry-by-entry "
+        "evaluation and the recorded history is judged by TLC.",
+   note="OS scheduling of workers not controlled (model covers interleavings; implementation run over worker counts/chunkings). Crash realised as damage-after-store + discarded result. Trusted: TLC, NumPy's .npy reader for the file projection."),
 }
 
 NOT_YET = {}
@@ -88,6 +96,8 @@ def main():
         "engines": [
             {"name": "stmesh", "path": "/verif/spec/STMesh.tla", "serves_properties": ["C02", "C10", "C06", "C19", "C18"],
              "kind_free_text": "TLA+ specification of the space-time mesh; TLC exhaustive + trace judge (spec/trace/TraceSTMesh.tla)"},
+            {"name": "assembly", "path": "/verif/spec/Assembly.tla", "serves_properties": ["C17"],
+             "kind_free_text": "TLA+ model of the assembly paths / pool / cache; behaviours replayed on real files and pools; judge spec/trace/TraceAssembly.tla"},
             {"name": "paraminit", "path": "/verif/spec/ParamInit.tla", "serves_properties": ["C18"],
              "kind_free_text": "TLA+ model of MeshParametrized.__init__ on abstract piecewise curves + Polygon.tla + generic numeric judge spec/trace/Judge.tla"},
             {"name": "quadtree", "path": "/verif/spec/QuadTree.tla", "serves_properties": ["C16", "C08"],
